@@ -160,6 +160,18 @@ for _pid, (_t, _x) in EXTRA.items():
     _c = CLAIMS[_pid]
     CLAIMS[_pid] = (_c[0], _c[1] + _t, _c[2] + _x, _c[3], _c[4])
 
+EXTRA3 = {
+    'C03': ' Zones carrying a truncation note are judged against the source with the documented truncations applied (STDOFF to the scope granularity, SAVE / fixed RULES to 15 min, AT / UNTIL to 1 min), all others against the source as written; a policy-level AT note alone does not excuse a zone.',
+    'C06': ' Day conversions are also made out of order (descending, pairs 65536 / 32768 / 256 days apart, a pseudo-random permutation) with no other conversion in between.',
+    'C17': ' The year helper is compared for every byte 0..126 (every year 2000..2126 is absorbed into [0, 99]).',
+    'C18': ' A source of rules that resolve into the neighbouring month (Fri<=1, Sun>=28, ..., as DST start or end) goes through the real compiler, both scopes and targets, the generated tables read by the real processors and bound to BasicProc.tla / ExtProc.tla, the traces judged by TzSem.tla.',
+    'C19': ' The model cases are also rendered on the two sides of the date line (UTC offsets exactly 24 h apart at equal DST); dateutil runs on every zone name pytz knows.',
+    'C20': ' The second compilation of every (source, scope) first compiles, in the same process, a decoy with the same zone, link and policy names and other contents.',
+}
+for _pid, _x in EXTRA3.items():
+    _c = CLAIMS[_pid]
+    CLAIMS[_pid] = (_c[0], _c[1], _c[2] + _x, _c[3], _c[4])
+
 def main():
     props = [json.loads(l) for l in open(os.path.join(VERIF, 'properties.jsonl'))]
     checks = []
